@@ -13,7 +13,7 @@
    trips and parse-then-print-then-parse stability. *)
 From Coq Require Import String Ascii.
 From Coq Require Import NArith ZArith List Bool.
-From HV Require Import Base.BSet Base.Bytes Base.Strto Base.Snprintf Bitmap.BitmapText Bitmap.BitmapTextProofs Bitmap.BitmapTextProofsList Bitmap.BitmapTextProofsTaskset.
+From HV Require Import Base.BSet Base.Bytes Base.Strto Base.Snprintf Bitmap.BitmapText Bitmap.BitmapTextProofs Bitmap.BitmapTextProofsList Bitmap.BitmapTextProofsTaskset Bitmap.BitmapTextProofsHwloc.
 Import ListNotations.
 Local Open Scope N_scope.
 
@@ -116,6 +116,21 @@ Print Assumptions parse_stable_taskset.
 
 Example roundtrip_taskset_non_vacuous : bm_wf (BM [18446744069414584321; FULL; 1] true).
 Proof. repeat constructor. Qed.
+
+(* ================= round trip, hwloc format: every well-formed bitmap =================
+   (0xf...f prefix, 32-bit groups packed in 64-bit words, merge with the infinite
+   prefix, skipped leading zero groups, "0x0" last group; any number of words) *)
+Theorem roundtrip_hwloc : forall dirty b, bm_wf b ->
+  exists b', parse_hwloc dirty (text_hwloc b ++ [0]) = Ok (PSet b') /\ abs b' = abs b /\ bm_wf b'.
+Proof. exact roundtrip_hwloc_gen. Qed.
+Print Assumptions roundtrip_hwloc.
+
+Theorem parse_stable_hwloc : forall dirty str b, parse_hwloc dirty str = Ok (PSet b) -> bm_wf b ->
+  exists b', parse_hwloc dirty (text_hwloc b ++ [0]) = Ok (PSet b') /\ abs b' = abs b.
+Proof.
+  intros dirty str b _ Hwf. destruct (roundtrip_hwloc_gen dirty b Hwf) as [b' [H1 [H2 _]]]. eauto.
+Qed.
+Print Assumptions parse_stable_hwloc.
 
 (* ================= round trip and stability: bounded domain only =================
    MISSING for the full statements: the induction over the printed groups /
